@@ -296,6 +296,8 @@ HOSTILE_ATTR_VALUES = ['"#x y"', '"|"', '">"', '"a: b"', '"a\nb"', '" lead"', '"
 
 
 HOSTILE_DESTS = [
+            # (Sphinx: documents that exist - the project's own index, the document itself - with fragments nobody defined)
+            "index.md#x", "index.md#", "doc.md#nosuch", "./index.md#a%20b", "index#x",
             "a" * 300, "d/" * 200 + "f.md", "a" * 5000 + ".md", "%00", "a%00b.md", "\\x00", "a\x00b", "f.md#" + "s" * 300,
             "../" * 50 + "x.md", "/", "//", ".", "..", "~", "C:\\x", "file:///etc/passwd", "a b.md", "é.md", "\U0001f600.md",
             "#", "##", "#a#b", "?q", "f.md?q#a", "x:", ":x", "://", "inv:", "inv:#", "inv:k", "inv:k:d:t:e#x", "inv:*#*",
